@@ -35,6 +35,12 @@ SHAPES = {
     "tr-shared-key-second-leaf": ("tr({3},{{multi_a(2,{0},{3}),pk({0})}})", False, True, 1),
     "tr-shared-key-first-leaf": ("tr({3},{{pk({0}),multi_a(2,{0},{3})}})", False, True, 1),
     "tr-shared-key-three-leaves": ("tr({3},{{multi_a(2,{1},{3}),{{multi_a(2,{1},{2}),pk({1})}}}})", False, True, 2),
+    # witness scripts longer than the 520-byte element limit (which binds the items under the script, not the script):
+    # {4}.. are further keys nobody signs with; 16 keys is the largest multisig the library derives (547 bytes), 15 is 513
+    "wsh-multi-16": ("wsh(multi(2,{0},{4},{5},{6},{7},{8},{9},{1},{10},{11},{12},{13},{14},{15},{3},{2}))", False, False, 2),
+    "wsh-sortedmulti-16": ("wsh(sortedmulti(2,{0},{1},{2},{3},{4},{5},{6},{7},{8},{9},{10},{11},{12},{13},{14},{15}))", False, False, 2),
+    "sh-wsh-multi-16": ("sh(wsh(multi(1,{4},{5},{6},{7},{8},{9},{10},{11},{12},{13},{14},{15},{3},{1},{2},{0})))", False, False, 1),
+    "wsh-multi-15": ("wsh(multi(3,{0},{1},{2},{3},{4},{5},{6},{7},{8},{9},{10},{11},{12},{13},{14}))", False, False, 3),
     "wsh-mini-older": ("wsh(and_v(v:pk({0}),older(10)))", False, False, 1),
     "wsh-mini-or": ("wsh(or_d(pk({0}),and_v(v:pk({1}),after(100))))", False, False, 1),
     "wsh-mini-thresh": ("wsh(thresh(2,pk({0}),s:pk({1}),s:pk({2})))", False, False, 2),
@@ -99,6 +105,8 @@ class FlowGen:
         path = r.choice(["48h/0h/0h", "84h/0h/2h", "86h/0h/0h", "0h"])
         branch = r.choice([0, 1])
         keys = [self.key_expr(x, path, f"/{branch}/*") for x in roots]
+        if "{4}" in tmpl:   # the many-key shapes: more accounts of the root nobody signs with
+            keys += [self.key_expr(roots[3], f"{path}/{40 + i}h", f"/{branch}/*") for i in range(12)]
         return parse(add_checksum(tmpl.format(*keys)), network)
 
     def build(self, shapes=None, n_inputs=None, psbt_version=None, sighash="random", lock=None) -> Flow:
